@@ -308,7 +308,117 @@ theorem C32_rrel_string_same_answer {R : Type} (find : T → String → List Str
       (callOf Gen.providerOrder view d' ⟨cls, attr, some (parse s), name, rs⟩).answer find user dflt := by
   rw [C32_rrel_string_same_call view parse raw d' cls attr s name rs i hi hreg hfirst]
 
+/-! ## the selected provider is *used*: nothing of the meta-model's configuration comes first
+
+Added for the seeded change C32-6 (builtins looked up before the provider).  For every builtins
+dictionary, every conformance test, every provider behaviour `ask`. -/
+
+variable {O : Type}
+
+/-- **The provider is asked first, and only it.**  Whatever `builtins` the meta-model was created
+with (also when the referenced name is a builtin name), exactly one provider call is made for a
+reference in a pass: the one of the provider the precedence selects. -/
+theorem C32_provider_asked (view : P → Option (RrelObj T)) (d : Dict P T) (env : Env O)
+    (ask : Call P T → Answer O) (r : Ref T) :
+    (resolveRef Gen.providerOrder view d env ask r).1 = [callOf Gen.providerOrder view d r] := by
+  rw [resolveRef_eq]
+
+/-- **Its answer is the binding.**  When the selected provider finds an object the reference is
+bound to it — a builtin of the same name does not shadow what the model defines. -/
+theorem C32_answer_wins (view : P → Option (RrelObj T)) (d : Dict P T) (env : Env O)
+    (ask : Call P T → Answer O) (r : Ref T) (o : O)
+    (h : ask (callOf Gen.providerOrder view d r) = .found o) :
+    (resolveRef Gen.providerOrder view d env ask r).2 = .bound o := by
+  rw [resolveRef_eq, h]
+
+/-- **Builtins are a fall-back.**  A reference is bound to `o` only if the selected provider
+answered `o`, or answered nothing and `o` is the conforming builtin of that name. -/
+theorem C32_builtin_fallback (view : P → Option (RrelObj T)) (d : Dict P T) (env : Env O)
+    (ask : Call P T → Answer O) (r : Ref T) (o : O)
+    (h : (resolveRef Gen.providerOrder view d env ask r).2 = .bound o) :
+    ask (callOf Gen.providerOrder view d r) = .found o ∨
+      (ask (callOf Gen.providerOrder view d r) = .nothing ∧ env.builtin? r.name = some o) := by
+  rw [resolveRef_eq] at h
+  cases ha : ask (callOf Gen.providerOrder view d r) with
+  | found o' =>
+    rw [ha] at h
+    simp only [Result.bound.injEq] at h
+    exact Or.inl (by rw [h])
+  | postponed =>
+    rw [ha] at h
+    simp at h
+  | nothing =>
+    rw [ha] at h
+    cases hb : env.builtin? r.name with
+    | none => rw [hb] at h; simp at h
+    | some b =>
+      rw [hb] at h
+      simp only [Result.bound.injEq] at h
+      exact Or.inr ⟨rfl, by rw [h]⟩
+
+/-- … and without a conforming builtin of that name a provider that finds nothing means "Unknown
+object": no other registered key, nor the default provider, is tried. -/
+theorem C32_no_fallthrough (view : P → Option (RrelObj T)) (d : Dict P T) (env : Env O)
+    (ask : Call P T → Answer O) (r : Ref T)
+    (h : ask (callOf Gen.providerOrder view d r) = .nothing) (hb : env.builtin? r.name = none) :
+    resolveRef Gen.providerOrder view d env ask r = ([callOf Gen.providerOrder view d r], .unknown) := by
+  rw [resolveRef_eq, h, hb]
+
+/-- **Every pass asks the same provider.**  A reference whose provider postpones is handed in
+again: all calls made for it, over all passes, are the call of the selected provider, -/
+theorem C32_passes_same_provider (view : P → Option (RrelObj T)) (d : Dict P T) (env : Env O) (r : Ref T)
+    (asks : List (Call P T → Answer O)) :
+    ∀ c ∈ (resolvePasses Gen.providerOrder view d env r asks).1, c = callOf Gen.providerOrder view d r := by
+  induction asks with
+  | nil => intro c hc; simp [resolvePasses] at hc
+  | cons ask rest ih =>
+    intro c hc
+    rw [resolvePasses, resolveRef_eq] at hc
+    cases ha : ask (callOf Gen.providerOrder view d r) with
+    | found o => rw [ha] at hc; simpa using hc
+    | postponed =>
+      rw [ha] at hc
+      simp only [List.cons_append, List.nil_append, List.mem_cons] at hc
+      rcases hc with hc | hc
+      · exact hc
+      · exact ih c hc
+    | nothing =>
+      rw [ha] at hc
+      cases hb : env.builtin? r.name <;> rw [hb] at hc <;> simpa using hc
+
+/-- … and which calls are made does not depend on the builtins at all. -/
+theorem C32_calls_env_indep (view : P → Option (RrelObj T)) (d : Dict P T) (env env' : Env O) (r : Ref T)
+    (asks : List (Call P T → Answer O)) :
+    (resolvePasses Gen.providerOrder view d env r asks).1 =
+      (resolvePasses Gen.providerOrder view d env' r asks).1 := by
+  induction asks with
+  | nil => rfl
+  | cons ask rest ih =>
+    rw [resolvePasses, resolvePasses, resolveRef_eq, resolveRef_eq]
+    cases ask (callOf Gen.providerOrder view d r) with
+    | found o => rfl
+    | postponed => simp only [ih]
+    | nothing =>
+      cases env.builtin? r.name <;> cases env'.builtin? r.name <;> rfl
+
+/-- negation witness for "builtins first" (the seeded change): with `x` a builtin name, looking
+the name up in the builtins before asking makes no call and binds the builtin, the code asks the
+selected provider and binds what it finds. -/
+theorem C32_builtin_first_false :
+    ∃ (d : Dict Nat String) (env : Env String) (ask : Call Nat String → Answer String) (r : Ref String),
+      env.builtin? r.name = some "builtin x" ∧
+      resolveRef Gen.providerOrder (fun _ => none) d env ask r = ([.user 3], .bound "pc x") :=
+  ⟨[("*.*", .custom 3)], ⟨[("x", "builtin x")], fun _ => true⟩, fun _ => .found "pc x",
+    ⟨"R", "t", none, "x", none⟩, by decide, by decide⟩
+
 /-! non-vacuity -/
+example : resolvePasses (P := Nat) (T := String) Gen.providerOrder (fun _ => none) [("R.*", .custom 1)]
+    ⟨[("w", "builtin w")], fun _ => true⟩ ⟨"R", "t", none, "w", none⟩
+    [fun _ => .postponed, fun _ => .nothing, fun _ => .found "never"] =
+    ([.user 1, .user 1], .bound "builtin w") := by decide
+example : resolveRef (P := Nat) (T := String) Gen.providerOrder (fun _ => none) [("R.*", .custom 1)]
+    ⟨[("w", "builtin w")], fun _ => false⟩ (fun _ => .nothing) ⟨"R", "t", none, "w", none⟩ =
+    ([.user 1], .unknown) := by decide
 example : select (P := Nat) (T := String) Gen.providerOrder
     [("*.*", .custom 0), ("R.*", .custom 1), ("*.t", .custom 2)] "R" "t" none = .custom 2 := by decide
 example : select (P := Nat) (T := String) Gen.providerOrder
